@@ -89,6 +89,7 @@ def dump_dm(dm):
 
 def run_pipe(case):
     from skcriteria.pipeline import SKCPipeline, mkpipe
+    I.set_salt(case.get("matrix"))
     try:
         dm = I.mk(case)
         tfs = [T.build(cfg) for cfg in case["steps"]]
@@ -241,6 +242,7 @@ def norm(v):
 def run_method(args):
     qual, seed = args
     import random
+    I.set_salt([qual, seed])
     rng = random.Random(seed)
     cls = all_method_classes()[qual]
     try:
